@@ -15,8 +15,8 @@ Context {D SY : Type} (dops : dict_ops D) (sops : syl_ops SY) (conv : conv_fn).
    sequence (part of the properties' "well-formed dictionary") *)
 Variable dict_ok : D -> Prop.
 Hypothesis ok_lookup : forall d f, dict_ok d -> do_lookup dops d f [] = [].
-Hypothesis ok_add : forall d k t f, dict_ok d -> length t <= length k -> dict_ok (fst (do_add dops d k t f)).
-Hypothesis ok_update : forall d k t f u tm, dict_ok d -> length t = length k -> k <> [] -> dict_ok (do_update dops d k t f u tm).
+Hypothesis ok_add : forall d k t f, dict_ok d -> length t <= length k -> (f <= 100)%N -> dict_ok (fst (do_add dops d k t f)).
+Hypothesis ok_update : forall d k t f u tm, dict_ok d -> length t = length k -> k <> [] -> (u <= MAX_USER_FREQ)%N -> dict_ok (do_update dops d k t f u tm).
 Hypothesis ok_remove : forall d k t, dict_ok d -> dict_ok (do_remove dops d k t).
 
 Notation shared' := (shared D SY).
@@ -160,11 +160,13 @@ Proof.
     destruct (do_lookup dops (dict s) false k) eqn:Elk.
     + destruct (do_add dops (dict s) k t 1%N) as [d' ok] eqn:Ea.
       assert (Hd' : dict_ok d').
-      { change d' with (fst (d', ok)). rewrite <- Ea. apply ok_add; [assumption | lia]. }
+      { change d' with (fst (d', ok)). rewrite <- Ea. apply ok_add; [assumption | lia | lia]. }
       inv_ok H. cbn. split; [|repeat split; reflexivity]. constructor; cbn; assumption.
     + bind_ok H uf Hu. inv_ok H. cbn. split; [|repeat split; reflexivity]. constructor; cbn; [assumption| |assumption|assumption].
-      apply ok_update; [assumption | lia |].
-      intros ->. rewrite (ok_lookup _ _ Hd) in Elk. discriminate.
+      apply ok_update; [assumption | lia | |].
+      * intros ->. rewrite (ok_lookup _ _ Hd) in Elk. discriminate.
+      * unfold estimate in Hu. repeat match type of Hu with context[if ?c then _ else _] => destruct c; try discriminate end;
+          inv_ok Hu; apply N.le_min_r.
 Qed.
 
 Lemma auto_learn_go_inv syms ivs : forall s pending psyl s',
@@ -245,7 +247,7 @@ Proof.
   match type of H with context[if ?c then _ else _] => destruct c end; [inv_ok H; cbn; frame|].
   destruct (do_add dops (dict s) _ _ 100%N) as [d' okk] eqn:Ea.
   assert (Hd' : dict_ok d').
-  { change d' with (fst (d', okk)). rewrite <- Ea. apply ok_add; [assumption|].
+  { change d' with (fst (d', okk)). rewrite <- Ea. apply ok_add; [assumption| |lia].
     rewrite (syl_prefix_all _ Ech), slice_length, firstn_length; [lia | exact Eb]. }
   destruct okk; inv_ok H; cbn; (split; [constructor; cbn; assumption | repeat split; reflexivity]).
 Qed.
